@@ -15,7 +15,7 @@ import asyncio
 import random
 
 from vf import cluster as C
-from vf.simharness import ClientSendTap, FaultPlan, Fate, make_cluster, owned, run_sim
+from vf.simharness import ClientSendTap, FaultPlan, Fate, make_cluster, owned, run_sim, idle_ms
 
 RETRIABLE_PRODUCE_ERRORS = [C.NOT_LEADER_FOR_PARTITION, C.LEADER_NOT_AVAILABLE, C.UNKNOWN_TOPIC_OR_PARTITION,
                             C.REQUEST_TIMED_OUT, C.NOT_ENOUGH_REPLICAS]
@@ -93,7 +93,8 @@ def run_history(P):
                     bootstrap_servers=cl.bootstrap(), acks=P["acks"] if not P["idempotent"] else -1,
                     enable_idempotence=P["idempotent"], max_batch_size=P["max_batch_size"], linger_ms=P["linger_ms"],
                     compression_type=P["compression"], request_timeout_ms=P["request_timeout_ms"],
-                    retry_backoff_ms=P["retry_backoff_ms"], metadata_max_age_ms=P["metadata_max_age_ms"])
+                    retry_backoff_ms=P["retry_backoff_ms"], metadata_max_age_ms=P["metadata_max_age_ms"],
+                    connections_max_idle_ms=idle_ms(P))
                 plan.enabled = False
                 await prod.start()
                 await prod.partitions_for(topic)
